@@ -229,11 +229,11 @@ ENTRY_NOTE = ("Trusted: Lean kernel + propext/Classical.choice/Quot.sound (`C18_
               "Modelled and proved total: bash.CompLine, RawValue.TrimmedDescription, namedDirectories.match / Replace, expandHome, Context.Abs. Everything else on the entry path (traverse, the lexer, cobra, the formatters' index arithmetic) is NOT modelled: for it the property is searched on the real code by mass generation, and the regenerated site inventory pins the source the search was run against - a theorem about the inventory, not about those sites' safety. Memory exhaustion, signals and OS errors are outside.")
 
 PROPS.update({
-    "C18": {"modules": ["Carapace.Props.C18", "Carapace.Props.C18Traverse"], "ops": [("entry", {"quick": 4000, "thorough": 200000}), ("compline", {"quick": 3000, "thorough": 100000}), ("trimdesc", {"quick": 3000, "thorough": 100000}), ("abs", {"quick": 3000, "thorough": 100000})],
+    "C18": {"modules": ["Carapace.Props.C18", "Carapace.Props.C18Traverse", "Carapace.Props.C18TraverseG"], "ops": [("entry", {"quick": 4000, "thorough": 200000}), ("compline", {"quick": 3000, "thorough": 100000}), ("trimdesc", {"quick": 3000, "thorough": 100000}), ("abs", {"quick": 3000, "thorough": 100000})],
             "rule": ENTRY_RULE, "assumptions": ["the observable is the one the property names: exit status, stderr and decodability of stdout of a child process", "a hang is no answer within 20 s (the machine may be loaded by 16 parallel children)"],
             "claimed": True, "engine": "total",
             "technique": "machine-checked proof in Lean 4 (explicit-panic models of the slice arithmetic, kernel-decided site inventory regenerated from the source) + differential correspondence; the unmodelled remainder of the entry path is searched by generated child processes (partial)",
-            "level_text": ("Partial: proof for the modelled functions, search on the real code for the rest (the runtime behaviour - panics inside unmodelled code, hangs - cannot be exhibited by the model). Proved for every input, in a model where Go's slice and index expressions are operations that can fail (`Except Panic`): `C18_compLine_total` (bash.CompLine never panics whatever COMP_LINE / COMP_POINT hold - true only since fix 3cb8b85) with `C18_compLine_prefix`, `C18_trimmed_total` / `C18_trimmed_source` (TrimmedDescription's `[:maxLength-3]` is in range for the limit read from the source, and the function equals the total one used by the formatter theorems), `C18_ndMatch_total`, `C18_ndReplace_total` (`SplitN(s, \"/\", 2)[1]` is reached only when the string contains `/`), `C18_expandHome_total`, `C18_abs_total`; a decided witness that the failure is expressible (`C18_trimmed_small_limit_panics`); over the traverse model (any command, lines that stay within it), the two slices of traverse.go whose bounds depend on the typed line: `C18_toParse_nonempty` (`toParse[:len-1]` is reached only when a flag waits for its value, and then that flag word is the last word - loop invariant `loop_pend`) and `C18_series_prefix_contains_shorthand` / `C18_series_cut_exists` (`Prefix[LastIndex(Prefix, Shorthand):]`: what lookupPosixShorthandArg returns carries the letter in its prefix). "
+            "level_text": ("Partial: proof for the modelled functions, search on the real code for the rest (the runtime behaviour - panics inside unmodelled code, hangs - cannot be exhibited by the model). Proved for every input, in a model where Go's slice and index expressions are operations that can fail (`Except Panic`): `C18_compLine_total` (bash.CompLine never panics whatever COMP_LINE / COMP_POINT hold - true only since fix 3cb8b85) with `C18_compLine_prefix`, `C18_trimmed_total` / `C18_trimmed_source` (TrimmedDescription's `[:maxLength-3]` is in range for the limit read from the source, and the function equals the total one used by the formatter theorems), `C18_ndMatch_total`, `C18_ndReplace_total` (`SplitN(s, \"/\", 2)[1]` is reached only when the string contains `/`), `C18_expandHome_total`, `C18_abs_total`; a decided witness that the failure is expressible (`C18_trimmed_small_limit_panics`); over the traverse model (any command, lines that stay within it), the two slices of traverse.go whose bounds depend on the typed line: `C18_toParse_nonempty` (`toParse[:len-1]` is reached only when a flag waits for its value, and then that flag word is the last word - loop invariant `loop_pend`) and `C18_series_prefix_contains_shorthand` / `C18_series_cut_exists` (`Prefix[LastIndex(Prefix, Shorthand):]`: what lookupPosixShorthandArg returns carries the letter in its prefix); and over the general traverse model (fork features, non-POSIX flag sets, any line incl. descent and `--`): `C18G_toParse_nonempty` (a flag in `inFlag` implies a word in `inArgs`: the invariant of the loop, no hypothesis on the line) and `C18G_series_prefix_contains_shorthand`. "
                            "`C18_sites_covered`: the inventory of every index / slice / panic / Must* expression of 38 files on the entry path, each with the conditions guarding it, regenerated from /repo on every run, equals the inventory the runs below were made for (kernel-decided). The models are compared exactly with the real functions (ops compline, trimdesc, abs). "
                            "Decided on the real code: thousands of child processes per run with generated argv / environment / ancestor shell / command tree; oracle: exit status 0, no goroutine dump, an answer within the limit, stdout decodable by the requested shell's consumer-side decoder, nothing but white space for unknown shells."),
             "level_note": ENTRY_NOTE},
